@@ -272,7 +272,9 @@ def alter_monate(geburtsdatum: numpy.datetime64, elterngeld_params: dict) -> flo
 
     # TODO(@hmgaudecker): Remove explicit cast when vectorisation is enabled.
     # https://github.com/iza-institute-of-labor-economics/gettsim/issues/515
-    age_in_days = elterngeld_params["datum"] - numpy.datetime64(geburtsdatum)
+    # Cast to days explicitly: a birth date supplied as data arrives in pandas'
+    # resolution (seconds or nanoseconds), and the difference would be in that unit.
+    age_in_days = elterngeld_params["datum"] - numpy.datetime64(geburtsdatum, "D")
 
     out = age_in_days / 30.436875
     return out.astype(float)
